@@ -13,7 +13,7 @@ Open Scope list_scope.
 Definition F (name : string) (sg : pydict string) (objs : list string) : gpred :=
   {| gp_name := name; gp_sig := sg; gp_map := combine (dkeys sg) objs; gp_pos := true |}.
 Definition N (name : string) (sg : pydict string) (v : float) (rep : pydict nat) : pfun :=
-  {| pf_name := name; pf_sig := sg; pf_val := v; pf_rep := rep |}.
+  {| pf_name := name; pf_sig := sg; pf_val := v; pf_rep := rep; pf_int := false |}.
 Definition vocab (types consts : pydict string) (preds funcs : pydict signature) : mdomain :=
   {| d_name := ""; d_reqs := []; d_types := types; d_consts := consts; d_preds := preds; d_funcs := funcs; d_actions := [] |}.
 
@@ -39,7 +39,10 @@ Record case := {
   c_source : option string;         (* shipped trajectory file the triplets were read from, if any *)
   c_with : option (obs oresult);    (* TrajectoryParser(domain, problem).parse_trajectory(file with that text) *)
   c_deduced : obs oresult;          (* TrajectoryParser(domain).parse_trajectory(...) *)
-  c_strict : obs nat                (* len(parse_trajectory(..., strict_trajectory_validation=True)) with the problem if any *)
+  c_strict : obs nat;               (* len(parse_trajectory(..., strict_trajectory_validation=True)) with the problem if any *)
+  c_may_repeat : bool               (* INPUT-side: the problem's init (or the shipped file) has a fluent with a repeated
+                                       argument, or a call of the plan repeats an argument / names a constant or the
+                                       domain's effects can pair an argument with itself (harness: may_repeat) *)
 }.
 
 Section Judge.
@@ -186,14 +189,19 @@ Section Judge.
   (* ---------- recorded finding classes, decided on the input ---------- *)
   (* D07: a fluent with a repeated argument, or one already collapsed by an effect that wrote it (it is then printed
      with fewer arguments than the function is declared with) *)
+  (* ... never one printed with MORE arguments than declared: D07 drops arguments, it does not invent them *)
   Definition has_repeat (s : mstate) : bool :=
-    existsb (fun kv => has_dup (snd (fst kv)) ||
-                       match dget (d_funcs (c_dom c)) (fst (fst kv)) with
-                       | Some sg => negb (Nat.eqb (List.length sg) (List.length (snd (fst kv))))
-                       | None => false
+    existsb (fun kv => match dget (d_funcs (c_dom c)) (fst (fst kv)) with
+                       | Some sg =>
+                           let n := List.length sg in
+                           let k := List.length (snd (fst kv)) in
+                           if Nat.ltb k n then true else if Nat.eqb k n then has_dup (snd (fst kv)) else false
+                       | None => has_dup (snd (fst kv))
                        end) (den_fluents s).
+  (* ... and only when the INPUT can lead there: a tree that makes ordinary fluents print bogus repeated arguments
+     must not fall into the class just because its dumps show them *)
   Definition known_class : bool :=
-    has_repeat (c_first c) || existsb (fun am => has_repeat (snd am)) (c_steps c) ||      (* D07 *)
+    (has_repeat (c_first c) || existsb (fun am => has_repeat (snd am)) (c_steps c)) && c_may_repeat c ||      (* D07 *)
     match c_steps c with [] => true | _ => false end.                                     (* D56: empty trajectory *)
 
   Definition tables_ok : bool :=
